@@ -14,6 +14,7 @@ RULE = ("graphs built by the real analysis from C08's workload (G-sim, all windo
         "dominant, and total-weight-conserving swaps / moves) each followed by CPGraph.critical_path() and the same checks. Non-trivial: graph with >= 2 distinct maximal paths "
         "candidates (>= 1 node with out-degree >= 2) and >= 10 edges. Distinct = hash of (trace, window, flag).")
 ASSUMPTIONS = ["own longest-path DP (hv/ref/cp.py::longest_path) trusted", "graphs come from in-regime traces (see C08)"]
+FLOAT_KEYS = ["files"]          # fractional-time-unit workload class (hv/shard.py)
 PLAN = {"quick": {"shards": 16, "cases": 480, "timeout": 900}, "thorough": {"shards": 16, "cases": 5000, "timeout": 3400}}
 FLOORS = {"quick": {"distinct_nontrivial": 100, "paths_checked": 1500, "reweighted_paths": 1000, "critical_path.post": 1500,
                     "path_changed_after_reweight": 100, "total_conserving_reweights": 300},
